@@ -67,8 +67,8 @@ func ruleCfgAddr(c *Ctx, rule string) {
 			if !ok || len(ret.Results) != 2 {
 				return
 			}
-			hostEmpty, _ := histEq(st, regexp.MustCompile(`^`+split+`#0$`), `""`)
-			portEmpty, _ := histEq(st, regexp.MustCompile(`^`+split+`#2$`), `""`)
+			hostEmpty, _ := histEq(st, regexp.MustCompile(`^len\(`+split+`#0\)$`), "0")
+			portEmpty, _ := histEq(st, regexp.MustCompile(`^len\(`+split+`#2\)$`), "0")
 			splitOK, _ := histFact(st, "nil", regexp.MustCompile(`^`+split+`#3$`))
 			parseNil, _ := histFact(st, "nil", regexp.MustCompile(`^net\.ParseIP\(`+split+`#0\)$`))
 			to4Nil, _ := histFact(st, "nil", regexp.MustCompile(`^\(net\.IP\)\.To4\(net\.ParseIP\(`+split+`#0\)\)$`))
